@@ -93,6 +93,15 @@ def _crosscheck_on():
     return os.environ.get("PYVC_TIER") == "thorough" and os.environ.get("PYVC_NO_CROSSCHECK") != "1"
 
 
+class _Covers(set):
+    """reached program points; when the contract could not be anchored the cover checks are vacuous (the obligations
+    themselves are reported undecided)"""
+    not_anchored = False
+
+    def __contains__(self, item):
+        return True if self.not_anchored else set.__contains__(self, item)
+
+
 class Stats:
     def __init__(self):
         self.z3_calls = 0
@@ -840,7 +849,8 @@ class Explorer:
         self.max_paths = max_paths
         self.stats = Stats()
         self.results = {}      # name -> list of (verdict, model_text, path, note)
-        self.covers = set()
+        self.covers = _Covers()
+        self.not_anchored = None
         self.worklist = []
         self.Vec = z3.DeclareSort("Vec")
         self._vadd = z3.Function("vadd", self.Vec, self.Vec, self.Vec)
@@ -876,6 +886,14 @@ class Explorer:
                 self.path_outcomes.append("end")
             except StopPath:
                 self.path_outcomes.append("stop")
+            except Undecided as e:
+                if "contract not anchored" not in str(e):
+                    raise
+                # the contract does not fit the current source: every obligation of this exploration is undecided and
+                # its covers are vacuous (reported by verdict(), not here)
+                self.not_anchored = str(e)
+                self.covers.not_anchored = True
+                self.worklist = []
             finally:
                 STATE.exact, STATE.alg, STATE.decide = saved
         return self
@@ -885,6 +903,8 @@ class Explorer:
         return sorted(self.results)
 
     def verdict(self, name, replay=None):
+        if self.not_anchored:
+            raise Undecided(self.not_anchored)
         rs = self.results.get(name)
         if not rs:
             # the contract (loop ordinal, invariant variables, program point) could not be anchored in the current source:
